@@ -25,8 +25,8 @@ type restartFile struct {
 }
 
 type restartRow struct {
-	ID      string                          `json:"id"`
-	Created int64                           `json:"created"`
+	ID      string                           `json:"id"`
+	Created int64                            `json:"created"`
 	Rec     *appencryption.EnvelopeKeyRecord `json:"rec"`
 }
 
